@@ -133,6 +133,77 @@ theorem beVal_lt (bs : Bytes) : beVal bs < 256 ^ bs.length := by
       Nat.mul_le_mul_right _ (by omega)
     omega
 
+/-! ### `to_be_bytes()[leading_zeros / 8 ..]` is `beBytes` -/
+
+theorem lt_pow_beBytes_length (v : Nat) : v < 256 ^ (beBytes v).length := by
+  have := beVal_lt (beBytes v)
+  rwa [beVal_beBytes] at this
+
+theorem pow_beBytes_length_le {v : Nat} (h : v ≠ 0) : 256 ^ ((beBytes v).length - 1) ≤ v := by
+  apply Nat.le_of_not_lt
+  intro hlt
+  have h1 := beBytes_length_le v _ hlt
+  have h2 := beBytes_length_pos h
+  omega
+
+/-- the fixed-width representation is zero padding followed by the minimal one.
+
+Note: `beFixed` is unfolded with a `rfl` step rather than `rw [beFixed]` on purpose.  `rw [beFixed]`
+would realize the equation lemmas `beFixed.eq_*` in this module, which shifts the numbering of the
+auxiliary `_proof_i_j` lemmas in `Lemmas/Account.lean` (it imports this file); `Lemmas/Account.lean`
+and `Lemmas/Signature.lean` both declare a public `Hdw.beFixed_beVal`, and their auxiliary lemmas
+then collide (`Hdw.beFixed_beVal._proof_1_4`) in modules importing both (C17, EndToEnd). -/
+theorem beFixed_eq_replicate_append (w v : Nat) (h : v < 256 ^ w) :
+    beFixed w v = List.replicate (w - (beBytes v).length) 0 ++ beBytes v := by
+  induction w generalizing v with
+  | zero =>
+    have : v = 0 := by simpa using h
+    subst this; rw [beBytes_zero]; rfl
+  | succ w ih =>
+    have hq : v / 256 < 256 ^ w := by
+      rw [Nat.pow_succ] at h
+      exact Nat.div_lt_of_lt_mul (by rw [Nat.mul_comm]; exact h)
+    -- unfold by `rfl`, not `rw [beFixed]`: see the note in the doc comment
+    have hstep : beFixed (w + 1) v = beFixed w (v / 256) ++ [UInt8.ofNat (v % 256)] := rfl
+    rw [hstep, ih _ hq]
+    by_cases hv : v = 0
+    · subst hv
+      simp only [Nat.zero_div, Nat.zero_mod, beBytes_zero, List.length_nil, Nat.sub_zero,
+        List.append_nil]
+      rw [List.replicate_succ']; rfl
+    · rw [beBytes_of_ne_zero hv, List.length_append, List.length_singleton,
+        Nat.add_sub_add_right, List.append_assoc]
+
+/-- number of stripped bytes = width minus minimal length -/
+theorem leadingZeros_div_8 (w v : Nat) (h : v < 256 ^ w) :
+    Hdw.Rlp.leadingZeros (8 * w) v / 8 = w - (beBytes v).length := by
+  unfold Hdw.Rlp.leadingZeros
+  by_cases hv : v = 0
+  · subst hv; rw [if_pos rfl, beBytes_zero]; simp
+  · rw [if_neg hv]
+    have hL := beBytes_length_le v w h
+    have hpos := beBytes_length_pos hv
+    have hlo := pow_beBytes_length_le hv
+    have hhi := lt_pow_beBytes_length v
+    have e : ∀ k, 256 ^ k = 2 ^ (8 * k) := fun k => by
+      rw [Nat.pow_mul]
+    rw [e] at hlo hhi
+    have h1 : 8 * ((beBytes v).length - 1) ≤ v.log2 := (Nat.le_log2 hv).mpr hlo
+    have h2 : v.log2 < 8 * (beBytes v).length := (Nat.log2_lt hv).mpr hhi
+    omega
+
+theorem beStripped_eq_beBytes (w v : Nat) (h : v < 256 ^ w) :
+    Hdw.Rlp.beStripped w v = beBytes v := by
+  unfold Hdw.Rlp.beStripped
+  rw [leadingZeros_div_8 w v h, beFixed_eq_replicate_append w v h]
+  exact List.drop_left' (by simp)
+
+theorem beStripped_8 (l : Nat) (h : l < 2 ^ 64) : Hdw.Rlp.beStripped 8 l = beBytes l :=
+  beStripped_eq_beBytes 8 l (by simpa using h)
+
+theorem beStripped_32 (v : Nat) (h : v < 2 ^ 256) : Hdw.Rlp.beStripped 32 v = beBytes v :=
+  beStripped_eq_beBytes 32 v (by simpa using h)
+
 end Hdw
 
 namespace Hdw.Spec.Rlp
@@ -564,6 +635,7 @@ theorem len_spec (l off : Nat) (hl : l < 2 ^ 64) (hoff : off = 0x80 ∨ off = 0x
     len l off = .ok (header l off) := by
   have hk := beBytes_length_le_8 l hl
   unfold len header
+  rw [beStripped_8 l hl]
   split
   · rw [if_pos (by omega), Nat.add_comm]
   · simp only
